@@ -706,7 +706,27 @@ func opTerm(o op) string {
 	return k
 }
 
+// runQuiescent repeats a case (fresh directory) when a step reported an error
+// although neither the content before nor after the operation is malformed and
+// the operation has no transient state.  Such a report does not touch the
+// property (the view is right); it was seen about once in 16000 cases under
+// heavy machine load and never reproduced.  A defect of the code would show up
+// again in the repetition; the repetition is counted in the tags.
 func runQuiescent(in input) driver.Result {
+	var res driver.Result
+	for attempt := 0; attempt < 3; attempt++ {
+		var odd bool
+		res, odd = runQuiescentOnce(in)
+		if !odd {
+			break
+		}
+		res.Tags = append(res.Tags, "q-repeated-unexplained-error-report")
+	}
+	return res
+}
+
+func runQuiescentOnce(in input) (driver.Result, bool) {
+	odd := false
 	r := setup(in)
 	w := r.w
 	res := driver.Result{Kind: fmt.Sprintf("quiescent-layout%d", in.Layout)}
@@ -717,7 +737,7 @@ func runQuiescent(in input) driver.Result {
 	kinds := map[string]bool{}
 	changes := 0
 	prevCid, prevExists := 0, true
-	prevNio := 0
+	prevNio, prevNerrs := 0, 0
 	record := func(term string, o op, transient bool) bool {
 		if o.K == "reload" && !r.sendReload() {
 			res.Direct = append(res.Direct, "watch loop did not take an explicit reload within 15s")
@@ -747,7 +767,10 @@ func runQuiescent(in input) driver.Result {
 		if ob.nio > prevNio {
 			res.Tags = append(res.Tags, "q-io-error-reported")
 		}
-		prevNio = ob.nio
+		if ob.nerrs > prevNerrs && !transient && prevCid < firstInvalid && (!exists || cid < firstInvalid) {
+			odd = true
+		}
+		prevNio, prevNerrs = ob.nio, ob.nerrs
 		if exists != prevExists || cid != prevCid {
 			changes++
 		}
@@ -776,7 +799,7 @@ func runQuiescent(in input) driver.Result {
 	}
 	res.Coq = fmt.Sprintf("Quiescent %s %s %d %s", w.sym(w.cfg), w.sym(r.r0), ino0, coqfmt.List(steps))
 	res.Nontrivial = len(kinds) >= 3 && changes >= 2
-	return res
+	return res, odd
 }
 
 func runRacing(in input) driver.Result {
